@@ -17,8 +17,9 @@ from checks import ctxcomp as cc
 from checks.ctxcomp import Mod, Feat, Sub, History, Snap
 
 LEAN_TARGETS = ["LyModel.Props.C19"]
-AUDIT = "Audit/C19.lean"
+AUDIT = ["Audit/C19.lean", "Audit/C19Fn.lean"]
 GENERATED = ["CtxFacts"]
+LEAN_TARGETS += ["LyModel.Props.C19Fn"]; GENERATED += ["FnHash"]     # functions translated from the C source (tools/c2lean.py), bridged in lean/LyModel/Bridge
 ASSUMPTIONS = [
     "see C09: module contents abstract, imports through the import callback, internal modules left out of the model and of the compared snapshots "
     "(whether ly_ctx_get_modules_hash covers them is read from context.c: the model then hashes name, revision and implemented of the rows of "
@@ -223,6 +224,7 @@ def jenkins(cx):
 
 
 def run(cx):
+    from checks import fncomp; fncomp.run_fn(cx, ['hash'])
     cx.rule("ctx (C19): one case = (API call, snapshot incl. 32-bit hash and counter) or (history, context rebuilt from its yang-library data); "
             "histories over unchanged sources: witnesses, all feature assignments of a 3-module set in every load order, random module sets "
             "(alternative revisions in the sources included); jenkins: all 1-byte keys + random keys; real modules: %d sets x 3 feature modes" % len(REAL_SETS))
